@@ -807,6 +807,9 @@ func main() {
 
 	var scs []scen.Scenario
 	for _, sc := range scen.All() {
+		if sc.RaceOnly {
+			continue
+		}
 		if *fScenario == "" || *fScenario == sc.Name {
 			scs = append(scs, sc)
 		}
